@@ -296,12 +296,15 @@ let run_case (x : sx) : Stdlib.String.t =
                     | L (A "4" :: inner) -> RRec (plain inner)
                     | L l -> RPlain (plain l)
                     | _ -> failwith "bad step" in
-                  let is_filter = function L (A "7" :: _) | L (A "8" :: _) | L (A "9" :: _) | L (A "10" :: _) | L (A "11" :: _) | L (A "12" :: _) -> true | _ -> false in
+                  let is_filter = function L (A "7" :: _) | L (A "8" :: _) | L (A "9" :: _) | L (A "10" :: _) | L (A "11" :: _) | L (A "12" :: _) | L (A "13" :: _) -> true | _ -> false in
                   let op_of = function "0" -> OEq | "1" -> ONe | "2" -> OLt | "3" -> OLe | "4" -> OGt | "5" -> OGe | _ -> failwith "bad operator" in
                   let rec fstep_of = function
                     | L [A "11"; inner] -> FR (fstep_of inner)
-                    | L (A "12" :: L inner :: A a :: A o :: A b :: lit) ->
-                        FCS (List.map rstep_of inner, nat_of_int (int_of_string a), op_of o, nat_of_int (int_of_string b), cp lit)
+                    | L (A "12" :: L inner :: A g0 :: A a :: A o :: A b :: A g1 :: lit) ->
+                        FCS (List.map rstep_of inner, nat_of_int (int_of_string g0), nat_of_int (int_of_string a), op_of o,
+                             nat_of_int (int_of_string b), nat_of_int (int_of_string g1), cp lit)
+                    | L (A "13" :: A neg :: A g0 :: A gn :: A g1 :: inner) ->
+                        FES (neg = "1", nat_of_int (int_of_string g0), nat_of_int (int_of_string gn), List.map rstep_of inner, nat_of_int (int_of_string g1))
                     | L (A "7" :: inner) -> FE (List.map rstep_of inner)
                     | L (A "9" :: inner) -> FN (List.map rstep_of inner)
                     | L (A "10" :: conjs) ->
